@@ -184,6 +184,19 @@ class TU:
         for o in objs:
             self.collect(o, seen, None)
 
+    def sync_type(self, t, depth=0):
+        """std::atomic / mutex / condition_variable / stream, or a class of namespace bfl all of whose data members
+        (and bases) are of such types: every access to its state is then an atomic operation."""
+        t = norm_std(t)
+        if SYNC_TYPE.match(t):
+            return True
+        c = strip_type(t)
+        r = self.records.get(c)
+        if r is None or depth > 3 or not r["fields"]:
+            return False
+        return all(self.sync_type(ft, depth + 1) for ft in r["fields"].values()) and \
+            all(self.sync_type(b, depth + 1) or (b in self.records and not self.records[b]["fields"] and not self.records[b]["bases"]) for b in r["bases"])
+
     # ---- source locations: clang prints file/line only when they change (in document order)
     def bare(self, d):
         if "file" in d:
@@ -246,6 +259,8 @@ class TU:
                 if ck == "FieldDecl":
                     self.field_by_id[c["id"]] = (name, c.get("name"), qual(c), desugared(c))
                     rec["fields"][c.get("name")] = qual(c)
+                elif ck == "VarDecl" and not c.get("constexpr") and not qual(c).startswith("const "):
+                    rec["fields"]["static " + str(c.get("name"))] = qual(c)   # static data member
                 elif ck in ("CXXMethodDecl", "CXXConversionDecl"):
                     self.method_by_id[c["id"]] = (name, c.get("name"))
                     self.method_info[c["id"]] = {"virtual": bool(c.get("virtual")), "pure": bool(c.get("pure")), "type": qual(c)}
@@ -560,7 +575,7 @@ class Body:
                 return
             t = rd.get("type", {}).get("qualType", "")
             rw, note = self.classify(n, chain)
-            sync = bool(SYNC_TYPE.match(norm_std(t)))
+            sync = self.tu.sync_type(t)
             self.access("global::%s" % rd.get("name"), rw, sync, n, chain, note)
             return
         # ParmVarDecl, FunctionDecl, EnumConstantDecl, BindingDecl, NonTypeTemplateParmDecl: no shared state
@@ -603,7 +618,7 @@ class Body:
             if fc in TRANSLATED or base.get("kind") == "CXXThisExpr":
                 rw, note = self.classify(n, chain)
                 t = norm_std(ft)
-                sync = bool(SYNC_TYPE.match(t)) or bool(SYNC_TYPE.match(norm_std(fd)))
+                sync = self.tu.sync_type(ft) or self.tu.sync_type(fd)
                 if ft.rstrip().endswith("&"):
                     rw, note = "Rd", "reference member"
                 self.access("%s::%s" % (fc, fn), rw, sync, n, chain, note)
@@ -868,12 +883,12 @@ def coq_access(a):
     return "mkAcc (%s) %s (%s) %s" % (var, a[1], prot, cq(a[3]))
 
 
-def render(info):
-    L = ["(* C10_AccessTable.v — GENERATED by props/C10_translate.py from the C++ sources on every run.",
+def render(info, name="current_table", header=None):
+    L = header or ["(* C10_AccessTable.v — GENERATED by props/C10_translate.py from the C++ sources on every run.",
          "   Do not edit; not under version control. *)",
          "Require Import List String.", "Import ListNotations.", "Require Import BFL.C10_Model.",
          "Local Open Scope string_scope.", ""]
-    L.append("Definition current_table : table := [")
+    L.append("Definition %s : table := [" % name)
     ents = []
     for e in info["table"]:
         accs = ";\n      ".join(coq_access(a) for a in e["accs"])
@@ -881,6 +896,8 @@ def render(info):
     L.append(";\n".join(ents))
     L.append("].")
     L.append("")
+    if name != "current_table":
+        return "\n".join(L) + "\n"
     L.append("(* the racy variables as computed by the translator's Python mirror of the checker *)")
     L.append("Definition py_racy_vars : list string := [%s]." % "; ".join(cq(v) for v in info["racy_vars"]))
     L.append("Definition py_offender_count : nat := %d." % len(info["offenders"]))
@@ -908,7 +925,10 @@ def write_table(info):
 
 def main():
     info = translate()
-    path, h = write_table(info)
+    if "--dry" in sys.argv:
+        path, h = "(dry run: table not written)", hashlib.sha256(render(info).encode()).hexdigest()[:16]
+    else:
+        path, h = write_table(info)
     print("wrote %s (%s): %d entries, %d accesses, %.1fs" % (path, h, len(info["table"]), sum(len(e["accs"]) for e in info["table"]), info["seconds"]))
     print("Ctl methods:", ", ".join(info["ctl_methods"]))
     print("Flt methods:", ", ".join(info["flt_methods"]))
